@@ -47,6 +47,11 @@ add("C06", "exploration",
     "trusted: closed universe (targets, created contracts, beneficiaries are added as they appear), released escrow read from the escrow entries before the block, stub ConsensusHelper",
     "deterministic simulation: value-movement histories with gas-starvation faults + conservation monitor")
 
+add("C17", "exploration",
+    "seeded operation histories on the real TxPool (add fresh/duplicate/executed/evicted, pack against plan-set state nonces, mark-executed with evictions, unmark (reorg), lookups, simulated cycle-ticker firings, node restarts) checked after every operation against a sequential reference pool and the statement's pack rules (no duplicates, <=200, no executed hash, per-sender ascending nonces, none ahead of the expected nonce, eligible pending transactions offered); concurrent part: 2-4 client tasks issue the same operations under the simulator's seeded scheduler (yield points inserted at function entries, lock sites and store writes of the pool code; chain lock discipline as in the node), with at-most-once and structural invariants at quiescence and a per-hash linearizability check of the recorded history (porcupine). Sampling, not proof.",
+    "trusted: reference pool model, the inserted yield points are the interleaving granularity (races inside a function body between two yield points are not schedulable), goleveldb/gmap/lru run real but are not under test",
+    "deterministic simulation: op histories vs reference pool; seeded interleavings at inserted yield points; porcupine on recorded histories")
+
 add("C19", "fault_enumeration",
     "seeded histories of AddGroup (valid and three kinds of invalid), remove-last-group, remove-then-different-group and restart on a booted real node; the invariant (linked list from genesis, count, height index below and above count, by-id retrieval, removed groups gone, sync successors) is checked against a slice model on the live node after every operation and - exhaustively per history - on a fresh incarnation booted from the disk image taken after every operation. Crash points inside an operation are booted too but only reported as probes (outside the property's quantifier).",
     "trusted: simulated storage under real goleveldb (completed writes survive), stub ConsensusHelper.CheckGroup, in-process restart (singletons reset through in-package drivers)",
